@@ -34,7 +34,7 @@ def check(run, replay=None):
                 "extensions, 0xff/zero runs, random splices, plus structured boundary values (size words of the proof format, "
                 "self-consistent 257/300-slot proofs, N/p/q in {0,1,even,max}, frames of every length 0..40, paths of depth "
                 "254..300, identity root); outcome classes Val/Err/Panic recorded; non-trivial = every case other than the "
-                "unmodified valid message")
+                "unmodified valid message Proofs whose slot ciphertexts are well-formed RSA encryptions of foreign plaintexts of 0..117 bytes (they pass the padding check and reach the scalar decoding inside decrypt).")
     run.samples = res["samples"][:6]
     run.extra["entry_point_outcomes"] = res["kinds"]
     run.oblige("implementation-only oracle: no entry point panicked / relay lock usable after every frame", not res["oracle"])
